@@ -497,11 +497,12 @@ PROPS["C03"] = {
         "level_note": "Proved for EVERY public operation and every state: notifications replay old text to new text (C03_notifications_replay); "
                       "motions/queries/copies leave text and capacity alone and notify nothing (C03_motion_copy_pure). Proved per operation "
                       "(every argument value incl. counts 0 and 65535, every word definition/anchor/char search/movement): no panic from a "
-                      "well-formed state + cursor on a character boundary, for every public method except indent and "
-                      "insert_str (C03_opCovered); capacity clause for insert/yank/update; assembled in C03_op_total_wf_replay_partial. "
-                      "indent is covered for totality by the correspondence + oracle only. insert_str with an index "
-                      "before the cursor is a known finding (C03_insertStr_counterexample; C03_insertStr_total_wf holds for idx >= pos).",
-        "unproved": ["C03_op_total_wf_replay_statement (full; false for insert_str: C03_insertStr_counterexample)"],
+                      "well-formed state + cursor on a character boundary, for EVERY public method incl. indent/dedent (C03_indent_total_wf, "
+                      "amount <= 255 = u8; per-line loop invariant buf = X ++ joinNl lines ++ Z) except insert_str; capacity clause for "
+                      "insert/yank/update; assembled in C03_op_total_wf_replay_partial (every op but insert_str) and "
+                      "C03_op_total_wf_replay_all_partial (every op, sole extra hypothesis: insert_str's index is not before the cursor). "
+                      "insert_str with an index before the cursor is a known finding (C03_insertStr_counterexample).",
+        "unproved": ["C03_op_total_wf_replay_statement (full; false for insert_str only: C03_insertStr_counterexample; proved for every other op and for insert_str at/after the cursor)"],
         "assumptions": [],
     }
 
@@ -512,19 +513,33 @@ PROPS["C04"] = {
         "trivial_impl_regex": r"",
         "rule": "same enumeration as C03 restricted to motions, kills, copies, indent, edit_word, transpose_*, every Movement with counts "
                 "1..4 and 65535, plus structured 3- and 5-line buffers and random multi-line op sequences; oracle: the declarative "
-                "targets/spans of Rl/Spec/Motion.lean evaluated on the implementation's observations.",
+                "targets/spans of Rl/Spec/Motion.lean evaluated on the implementation's observations (vertical motions: destination line "
+                "and display column, checkVertical + checkVerticalCol).",
         "exhaustive": {"quick": True, "thorough": True},
         "trusted_base": [
             "as C03 (segmenter, Unicode predicates from the implementation, WcWidth)",
             "the declarative spec Rl/Spec/Motion.lean is the reading of the property text (DESIGN.md 7.1 reading decisions)"],
-        "level_text": "Declarative motion/span spec as executable oracle on the implementation plus Lean theorems relating model targets to the spec.",
+        "level_text": "Declarative motion/span spec as executable oracle on the implementation plus Lean theorems relating model targets and "
+                      "kill/copy spans to the spec (every Movement except ViFirstPrint), for every lawful segmenter (two movements: every stable one).",
         "level_note": "Proved: character motions = whole clusters (forward and backward); the word loops of next_word_pos (anchors Start, "
                       "AfterEnd; motion and kill/copy range) and prev_word_pos return exactly the declarative n-th word start/end or the text end; "
-                      "word kills/copies cover exactly [cursor, target); move_home/move_end = declarative line start/end. Char searches, "
-                      "line-wise spans, vertical motion, indent, edit_word, transpose_chars are checked by the oracle on the implementation only. "
-                      "Known findings: ViFirstPrint ranges, vi `e` with count > 1.",
+                      "move_home/move_end = declarative line start/end; char searches f/F land on the n-th occurrence for every lawful segmenter, "
+                      "t/T one whole cluster before/after it for every segmenter that is stable under cutting at its own boundaries "
+                      "(C04_char_search_partial; uaxSeg is: C04_uaxSeg_stable; false without it: C04_char_search_counterexample). "
+                      "kill/copy = exactly the declarative span, text reported, rest unchanged, cursor at the span start, one theorem per movement "
+                      "(C04_kill_<mvt>_is_span / C04_copy_<mvt>_is_span: chars, words, begin/end of line, whole line, line up/down, buffer ranges, "
+                      "char searches) assembled in C04_kill_is_span_partial / C04_copy_is_span_partial (every Movement but ViFirstPrint; hypotheses "
+                      "S.Stable for T-searches and S.NlAlone = the line break is its own cluster for the whole-line kill of an empty line). "
+                      "Vertical motion: lands in the n-th line above/below or the first/last (C04_moveToLineUp_dest / C04_moveToLineDown_dest, "
+                      "also the exact cluster index), keeps the display column when the destination line has one-column clusters "
+                      "(C04_moveToLine*_column_partial); with wide or zero-width clusters it does not (C04_vertical_column_counterexample, "
+                      "known finding F-C04-vertical-column, now also judged by the oracle checkVerticalCol). indent, edit_word, transpose_chars are "
+                      "checked by the oracle on the implementation only. Known findings: ViFirstPrint ranges, vi `e` with count > 1, vertical column.",
         "unproved": ["C04_word_target_beforeEnd_statement (refuted: C04_word_target_beforeEnd_counterexample, pinned by test::vi_cmd::e)",
-                     "C04_kill_is_span_statement", "C04_copy_is_span_statement", "C04_char_search_statement"],
+                     "C04_kill_is_span_statement (refuted for ViFirstPrint: C04_kill_viFirstPrint_counterexample; every other movement: C04_kill_is_span_partial)",
+                     "C04_copy_is_span_statement (refuted for ViFirstPrint: C04_copy_viFirstPrint_counterexample; every other movement: C04_copy_is_span_partial)",
+                     "C04_char_search_statement (refuted for an unstable lawful segmenter: C04_char_search_counterexample; proved for stable ones)",
+                     "C04_vertical_column_statement (refuted: C04_vertical_column_counterexample, finding F-C04-vertical-column)"],
         "assumptions": [],
     }
 
